@@ -450,3 +450,5 @@ def _regdep(ctx):
     ctx.require("R11.regdep", nloops[0], 1, "loops over an object registry")
     ctx.ob("R11.regdep", "observable events analysed", True, "", "%d sites" % len(occ))
     ctx.counts["R11.regdep: observable event sites"] = len(occ)
+
+EXPLANATION += ' Batch 6: R11.sub carries the listener life-cycle obligations of R02.key, the justification for treating the listener tables as re-established state.'
